@@ -608,8 +608,9 @@ fn check_api(world: &World, flow: Flow, p: &Params) -> Result<&'static str, (Str
 					amount: p.amount,
 					..Default::default()
 				})?;
-				let mut ar = args.clone();
-				ar.amount_includes_fee = None;
+				// the payer's options go in as given: the amount of an invoice is the issuer's, so
+				// "amount includes fee" must not change what is paid
+				let ar = args.clone();
 				let _i2 = a.process_invoice(&i1, ar)?;
 				Ok(Some((i1.id, p.amount)))
 			}
@@ -974,7 +975,7 @@ pub fn run(_args: &[String]) -> i32 {
 		for flow in flows.iter() {
 			for amount in amounts.iter() {
 				for includes_fee in [false, true].iter() {
-					if *includes_fee && (*flow == Flow::Invoice || matches!(flow, Flow::LockAfter(_))) {
+					if *includes_fee && matches!(flow, Flow::LockAfter(_)) {
 						continue;
 					}
 					for cn in (if thorough { vec![0usize, 1, 2, 3] } else { vec![0usize, 1, 3] }).iter() {
